@@ -180,7 +180,8 @@ def run(ctx):
         ctx.case(("est-coarse", sps, BAND[0], extra > 0))
     RESAMP[0], BAND[0] = 128, "bessel"
     # two records with the same number of samples but different samples per slot, one after the other (and back)
-    for it, seq in enumerate([[(16, 256), (32, 128), (16, 256)], [(8, 512), (32, 128), (16, 256)]] if T else [[(16, 256), (32, 128), (16, 256)]]):
+    for it, seq in enumerate([[(16, 256), (32, 128), (16, 256)], [(16, 256), (32, 128), (16, 256)], [(8, 512), (32, 128), (16, 256)]] if T else [[(16, 256), (32, 128), (16, 256)], [(16, 256), (32, 128), (16, 256)]]):
+        RESAMP[0] = None if it == 1 else 128         # with and without interpolation of the eye
         for j, (sps, nslots) in enumerate(seq):
             a, b, sigma = 0.0, 1.0, 0.02
             base, nz = synth(sps, "random", nslots, 700 + it, sigma)
@@ -194,6 +195,7 @@ def run(ctx):
                 events.append({"kind": "est", "finite": False})
             meta.append(("est", (a, b), sps, "same-size-sequence"))
             ctx.case(("est-sequence", it, j))
+    RESAMP[0] = 128
     # one record longer than the default eye window (4096 slots): the estimate must still be that of a clean eye
     for it in range(2 if T else 1):
         a, b, sigma, sps = [(0.0, 1.0), (-2.0, 3.0)][it], 0.0, 0.01, 8
